@@ -283,6 +283,17 @@ def path_ops(ck, rnd, quick):
                                     case={'joined': joined, 'op': what}, expected=len(path), observed=len(new), driver='joints')
                         continue
                     joints_kept(ck, joined, path, new, what)
+                    # every point commutes with the operation; for rotated() without an origin the documented default is path.point(0.5)
+                    import cmath
+                    o17 = path.point(0.5)
+                    pmap = {'translated(0.1+0.7j)': lambda z: z + (0.1 + 0.7j), 'rotated(17)': lambda z: cmath.exp(1j * math.radians(17)) * (z - o17) + o17,
+                            'rotated(90, origin=1+1j)': lambda z: 1j * (z - (1 + 1j)) + (1 + 1j), 'scaled(1/3)': lambda z: z / 3.0, 'scaled(-0.7, origin=2j)': lambda z: -0.7 * (z - 2j) + 2j}.get(what)
+                    if pmap is not None:
+                        for si_, (a_, b_) in enumerate(zip(new, path)):
+                            if any(not (abs(a_.point(t_) - pmap(b_.point(t_))) <= 1e-7 * (1 + abs(b_.point(t_)))) for t_ in (0, 0.3, 0.5, 1)):
+                                ck.disagree(key='path-op/points-do-not-commute/%s' % what.split('(')[0], site='svgpathtools/path.py:rotate / scale / translate', what='%s of %r: member %d is %r' % (what, path, si_, a_),
+                                            case={'joined': joined, 'op': what, 'path': repr(path)}, expected='every point of the member mapped', observed=repr(a_), driver='joints')
+                                break
     # paths with point-like members (a repeated vertex, a zero-length closing line, a point-like cubic) and with curves of lower true degree (a degree-elevated
     # line / quadratic): every operation returns a path, members keep their kind, points commute
     odd = [sp.Path(sp.Line(0j, 3 + 0j), sp.Line(3 + 0j, 3 + 0j), sp.Line(3 + 0j, 3 + 4j), sp.Line(3 + 4j, 0j), sp.Line(0j, 0j)),
